@@ -201,6 +201,9 @@ pub fn catalogue() -> Vec<Entry> {
 struct W {
     rt: Runtime<NoCtx>,
     cat: Vec<Entry>,
+    /// known finding C04-F1: a caller whose context fixes the side a filtermap never uses
+    excl_pin: bool,
+    excluded_pins: std::cell::Cell<u64>,
 }
 
 #[derive(Clone, Debug)]
@@ -211,6 +214,8 @@ struct ScriptFn {
     /// the descriptor Rust must use for the return type
     ret: TD,
     text: String,
+    /// a filtermap with an unused side that a caller uses at a concrete type
+    pinned: bool,
 }
 
 fn leaf(c: &mut Choices) -> TD {
@@ -298,6 +303,7 @@ impl W {
             // (names that start like the package prefix or like compiler-made names are ordinary names)
             let name = format!("{}{i}", ["f", "f", "pkg", "pkg_", "pkgs", "generated", "test_", "Pkg", "ｆ", "drop_", "clone_"][c.below(11)]);
             let kind = c.below(10);
+            let mut pin: Option<(Vec<String>, Vec<TD>, bool)> = None;
             // signature: derived from a catalogue entry (exact or near miss) or random
             let (mut params, mut ret) = if kind < 7 {
                 let e = &self.cat[c.below(self.cat.len())];
@@ -331,7 +337,7 @@ impl W {
             let text = if filtermap {
                 // a filtermap's Rust type is the Verdict of its accept / reject payloads, () for an unused side
                 let TD::Verdict(a, r) = &ret else { unreachable!() };
-                let style = c.below(9);
+                let style = c.below(10);
                 let mut ps = plist.clone();
                 let (body, rd) = match style {
                     0 => {
@@ -358,6 +364,12 @@ impl W {
                         "if true { accept [1.5, 2.5] } else { reject Option.Some(2) }".to_string(),
                         TD::Verdict(Box::new(TD::List(Box::new(TD::Leaf("f64")))), Box::new(TD::Opt(Box::new(TD::Leaf("i32"))))),
                     ),
+                    9 => {
+                        // no parameters, a payload of a catalogue leaf: the catalogue has this signature with
+                        // (), u8 and String on the other side, so a caller that pins the unused side is visible
+                        let (lit, leaf) = [("7u8", "u8"), ("7i64", "i64"), ("\"s\"", "String"), ("7u32", "u32")][c.below(4)];
+                        (format!("accept {lit}"), TD::Verdict(Box::new(TD::Leaf(leaf)), Box::new(TD::Leaf("()"))))
+                    }
                     _ => {
                         // one side used, the other only reached through the recursive call
                         ps.push(format!("xa: {}", a.roto()));
@@ -367,8 +379,8 @@ impl W {
                     }
                 };
                 // the extra payload parameters are part of the signature
-                let mut full_params = if style >= 6 && style <= 8 { Vec::new() } else { params.clone() };
-                if style >= 6 && style <= 8 {
+                let mut full_params = if style >= 6 && style <= 9 { Vec::new() } else { params.clone() };
+                if style >= 6 && style <= 9 {
                     ps.clear();
                 }
                 match style {
@@ -385,6 +397,11 @@ impl W {
                 }
                 params = full_params;
                 ret = rd;
+                // a caller whose own return type names a concrete type for the side the filtermap never
+                // uses; the filtermap's own Rust type still has () there
+                if (matches!(style, 1 | 2 | 5) && params.len() <= 7 && c.chance(70)) || (style == 9 && c.chance(128)) {
+                    pin = Some((ps.clone(), params.clone(), style == 2));
+                }
                 format!("filtermap {name}({}) {{\n    {body}\n}}\n", ps.join(", "))
             } else if ret == TD::Leaf("()") {
                 format!("fn {name}({}) {{\n}}\n", plist.join(", "))
@@ -392,7 +409,22 @@ impl W {
                 // the body calls itself: well-typed for every return type, never executed
                 format!("fn {name}({}) -> {} {{\n    {name}({})\n}}\n", plist.join(", "), ret.roto(), args.join(", "))
             };
-            out.push(ScriptFn { name, filtermap, params, ret, text });
+            let mut pinned = false;
+            if let Some((ps, pparams, accept_unused)) = pin {
+                if self.excl_pin {
+                    self.excluded_pins.set(self.excluded_pins.get() + 1);
+                } else {
+                    pinned = true;
+                    let TD::Verdict(a, r) = &ret else { unreachable!() };
+                    let other = TD::Leaf(["String", "u8", "IpAddr"][c.below(3)]);
+                    let other = if other == *a.as_ref() || other == *r.as_ref() { TD::Leaf("i64") } else { other };
+                    let pret = if accept_unused { TD::Verdict(Box::new(other), r.clone()) } else { TD::Verdict(a.clone(), Box::new(other)) };
+                    let names: Vec<String> = ps.iter().map(|p| p.split(':').next().unwrap().to_string()).collect();
+                    let ptext = format!("fn {name}_pin({}) -> {} {{\n    {name}({})\n}}\n", ps.join(", "), pret.roto(), names.join(", "));
+                    out.push(ScriptFn { name: format!("{name}_pin"), filtermap: false, params: pparams, ret: pret, text: ptext, pinned: false });
+                }
+            }
+            out.push(ScriptFn { name, filtermap, params, ret, text, pinned });
         }
         // a script-declared type named like a built-in type constructor: no Rust type describes it
         let all: String = out.iter().map(|f| f.text.clone()).collect();
@@ -410,6 +442,7 @@ impl W {
                     params: vec![TD::Leaf(user)],
                     ret: TD::Leaf("i32"),
                     text: format!("{decl}\nfn shadowed(x: {text_ty}) -> i32 {{\n    0\n}}\n"),
+                    pinned: false,
                 });
             }
         }
@@ -424,8 +457,28 @@ impl WorkerState for W {
     }
 
     fn run(&mut self, case: &Case, render: bool) -> Outcome {
+        if case.first().map(|c| c.as_slice()) == Some(b"#!pinned") {
+            // literal case: a filtermap that never rejects, called by a function whose return type names a
+            // reject payload; the filtermap is still `fn(i32) -> Verdict<i32, ()>` for Rust
+            let src = "filtermap fm(x: i32) {\n    accept x\n}\nfn g() -> Verdict[i32, String] {\n    fm(1)\n}\n";
+            let mut pkg = match host::compile(&self.rt, src) {
+                Ok(p) => p,
+                Err(e) => return Outcome::fail("literal:rejected", e),
+            };
+            let unit = pkg.get_function::<fn(i32) -> roto::Verdict<i32, ()>>("fm").is_ok();
+            let string = pkg.get_function::<fn(i32) -> roto::Verdict<i32, roto::RotoString>>("fm").is_ok();
+            let mut o = Outcome::pass();
+            o.nontrivial = true;
+            o.render = Some(src.to_string());
+            if !unit || string {
+                let kind = if !unit { "refused-true-signature" } else { "accepted-wrong-signature" };
+                return Outcome::fail(format!("{kind}:filtermap:pinned-by-caller"), format!("get_function::<fn(i32) -> Verdict<i32, ()>>(\"fm\") {}, get_function::<fn(i32) -> Verdict<i32, RotoString>>(\"fm\") {}; the filtermap never rejects, so its reject side is ()\n{src}", if unit { "succeeded" } else { "failed" }, if string { "succeeded" } else { "failed" }));
+            }
+            return o;
+        }
         let empty: Vec<u8> = Vec::new();
         let fns = self.script_fns(case.first().unwrap_or(&empty));
+        let excluded_pins = self.excluded_pins.replace(0);
         let src: String = fns.iter().map(|f| f.text.clone()).collect();
         let mut pkg = match host::compile(&self.rt, &src) {
             Ok(p) => p,
@@ -433,6 +486,12 @@ impl WorkerState for W {
         };
         let mut o = Outcome::pass();
         o.evals = 0;
+        if excluded_pins > 0 {
+            o.excluded.push(("C04-F1".into(), excluded_pins));
+        }
+        if fns.iter().any(|f| f.pinned) {
+            o.classes.push("filtermap-side-pinned-by-caller".into());
+        }
         let mut near = 0u64;
         let mut exact = 0u64;
         for f in &fns {
@@ -453,7 +512,7 @@ impl WorkerState for W {
                 if got.is_ok() != should {
                     let kind = if should { "refused-true-signature" } else { "accepted-wrong-signature" };
                     let mut fail = Outcome::fail(
-                        format!("{kind}:{}", if f.filtermap { "filtermap" } else { "fn" }),
+                        format!("{kind}:{}{}", if f.filtermap { "filtermap" } else { "fn" }, if f.pinned { ":pinned-by-caller" } else { "" }),
                         format!(
                             "get_function::<{}>(\"{}\") {} but the script declares\n{}\nexpected Rust signature: fn({}) -> {}\n{}\n--- source ---\n{src}",
                             e.rust,
@@ -534,8 +593,8 @@ impl Prop for C04P {
     fn shape(&self, _tier: Tier) -> CaseShape {
         CaseShape::streams(&[160])
     }
-    fn worker(&self, _excl: &[String]) -> Box<dyn WorkerState> {
-        Box::new(W { rt: host::build_runtime(), cat: catalogue() })
+    fn worker(&self, excl: &[String]) -> Box<dyn WorkerState> {
+        Box::new(W { rt: host::build_runtime(), cat: catalogue(), excl_pin: excl.iter().any(|e| e == "C04-F1"), excluded_pins: std::cell::Cell::new(0) })
     }
 }
 
